@@ -112,10 +112,44 @@ def orth_names():
     return ORTH
 
 
+def oracle_functional(ck, name, dim, shape):
+    """the functional entry points afb1d / sfb1d with the taps given as PLAIN LISTS (pywt's dec_lo/dec_hi, rec_lo/rec_hi; the
+    functions prepare float32 kernels themselves): analysis equals pywt.dwt, synthesis inverts it and is its transpose"""
+    import torch, pywt
+    from pytorch_wavelets.dwt import lowlevel as ll
+    w = pywt.Wavelet(name)
+    desc = 'lowlevel.afb1d / sfb1d with list taps, wavelet %s, periodization, dim=%d, shape=%s' % (name, dim, tuple(shape))
+    replay = {'oracle': 'functional', 'name': name, 'dim': dim, 'shape': list(shape)}
+    g = np.random.default_rng(len(name) * 1000 + dim * 10 + shape[dim])
+    x = torch.tensor(g.standard_normal(shape), dtype=torch.float32)
+    try:
+        lohi = ll.afb1d(x, list(w.dec_lo), list(w.dec_hi), mode='periodization', dim=dim)
+        lo = lohi[:, ::2].contiguous(); hi = lohi[:, 1::2].contiguous()
+        y = ll.sfb1d(lo, hi, list(w.rec_lo), list(w.rec_hi), mode='periodization', dim=dim)
+        gg = torch.tensor(g.standard_normal(tuple(lo.shape)), dtype=torch.float32); gh = torch.tensor(g.standard_normal(tuple(hi.shape)), dtype=torch.float32)
+        s = ll.sfb1d(gg, gh, list(w.rec_lo), list(w.rec_hi), mode='periodization', dim=dim)
+    except Exception as e:
+        ck.fail(desc + ': raises %s: %s' % (type(e).__name__, str(e)[:120]), replay); return 'raise'
+    ref = pywt.dwt(x.numpy().astype(np.float64), w, mode='periodization', axis=dim)
+    tol = 2e-5
+    if float(np.abs(lo.numpy() - ref[0]).max()) > tol or float(np.abs(hi.numpy() - ref[1]).max()) > tol:
+        ck.fail(desc + ': analysis differs from pywt.dwt', replay); return 'diff'
+    if tuple(y.shape) != tuple(x.shape) or float((y - x).abs().max()) > tol:
+        ck.fail(desc + ': sfb1d(afb1d(x)) != x (max error %.3g)' % (float((y - x).abs().max()) if tuple(y.shape) == tuple(x.shape) else float('nan')), replay); return 'diff'
+    lhs = float((s.double() * x.double()).sum()); rhs = float((gg.double() * lo.double()).sum() + (gh.double() * hi.double()).sum())
+    if abs(lhs - rhs) > 1e-4 * max(1.0, abs(lhs)):
+        ck.fail(desc + ': synthesis is not the transpose of analysis: <S g, x> = %.6g, <g, A x> = %.6g' % (lhs, rhs), replay); return 'diff'
+    ck.oracle_ok(('functional', name, dim, tuple(shape)), group='functional-list-taps', sample={'what': desc})
+    return None
+
+
 def oracle(ck, extended):
     rng = ck.rng
     import pywt
     q = ck.tier == 'quick'
+    for name_ in ['haar', 'db3', 'sym4', 'coif2']:
+        rt.guard(ck, oracle_functional, ck, name_, 3, (2, 3, 1, 16))
+        rt.guard(ck, oracle_functional, ck, name_, 2, (1, 2, 18, 1))
     names = orth_names()
     for name in (rng.sample(names, 14) if q else names):
         L = pywt.Wavelet(name).dec_len
@@ -157,6 +191,8 @@ def replay(ck, path):
         return 1
     if f['oracle'] == 'orth':
         oracle_orth(ck, f['dims'], f['J'], f['name'], tuple(f['shape']))
+    elif f['oracle'] == 'functional':
+        oracle_functional(ck, f['name'], f['dim'], tuple(f['shape']))
     else:
         oracle_transpose_exact(ck, f['J'], f['L'], f['N'])
     for fl in ck.failures:
